@@ -43,6 +43,8 @@ class Contract:
         allocates=True,
         log=None,
         assumed_ensures=None,
+        focus=None,
+        private=(),
     ):
         self.name = name
         self.params = params or {}
@@ -66,6 +68,11 @@ class Contract:
         self.trusted_base = trusted_base
         self.allocates = allocates
         self.assumed_ensures = dict(assumed_ensures or {})  # assumed at call sites, NOT proved for the body (listed as assumptions)
+        # focus: [{"label", "assume": spec over the entry state, "only": [ensures-id prefixes]}]: the listed postconditions are
+        # proved in two parts: in a separate run of the body under `assume` (fewer feasible paths, smaller formulas), and in
+        # the general run under `not assume`; together the two obligations cover every entry state.
+        self.focus = list(focus or [])
+        self.private = list(private)  # id prefixes of postconditions that are proved for the body but not assumed at call sites
         self.log = log  # (tag, [param names]) -> the call is appended to the ghost call log ($cl_*)
 
 
